@@ -188,6 +188,20 @@ func vRunPar(t *testing.T, gen func(e *vEnv, r *vRand) []vCase, exec func(t *tes
 		f.Close()
 	} else {
 		cases = gen(e, newVRand(e.seed))
+		// the generated cases, before any of them runs: lets the driver find the case that killed the process
+		if lp := os.Getenv("VERIF_LIST"); lp != "" {
+			if lf, err := os.Create(lp); err == nil {
+				lw := bufio.NewWriter(lf)
+				for i := range cases {
+					if data, err := json.Marshal(&vCase{Ops: cases[i].Ops, Tags: cases[i].Tags}); err == nil {
+						lw.Write(data)
+						lw.WriteByte('\n')
+					}
+				}
+				lw.Flush()
+				lf.Close()
+			}
+		}
 	}
 
 	out, err := os.Create(e.out)
